@@ -5,6 +5,7 @@
    on every run).  Models: model/Wire.v (types.py primitive by primitive), model/KafkaSpec.v
    (independent hand-written Kafka layout table), model/C11Negotiate.v, model/C11Tables.v. *)
 From Coq Require Import ZArith List Bool String.
+From Verif Require Import PrepareGen C11_prepare_gen.
 From Verif Require Import Wire WireTables KafkaSpec C11Negotiate C11Tables WireRun Schemas
                           C11_roundtrip C11_unordered C11_negotiate C11_flat C11_tables.
 Import ListNotations.
@@ -93,6 +94,14 @@ Proof. vm_compute. repeat split. Qed.
 (* for every class list sorted by version and every advertised (min,max): the class built
    has the greatest supported version inside [min,max]; NotImplementedError exactly when no
    supported version is inside; nothing else happens *)
+(* tie T: Request.prepare as translated from aiokafka/protocol/api.py on this run (gen/PrepareGen.v: the class used when
+   the broker's range is unknown, the iteration order over _CLASSES, the range condition) IS the model function
+   `prepare` that the statements below are about, for every version list, flag and advertised range *)
+Theorem c11_prepare_is_translated : forall vers allow adv,
+  PrepareGen.prepare_py vers allow adv = prepare vers allow adv.
+Proof. exact prepare_py_eq. Qed.
+Print Assumptions c11_prepare_is_translated.
+
 Theorem c11_prepare_highest : forall vers allow lo hi,
   sorted_lt vers = true ->
   match prepare vers allow (Some (lo, hi)) with
